@@ -983,6 +983,15 @@ func healthStream(cfg *Config) (res *hx.Stats) {
 			st.HarnessErr = "required case never generated: " + need
 		}
 	}
+	// the directed cases of every run
+	for _, need := range []string{"world:single", "check:lazy-roots", "check:lazy-pending", "check:lazy-detached-ring", "check:detached-ring0", "check:detached-ring5-committed"} {
+		if st.Dist[need] == 0 {
+			st.HarnessErr = "required case never generated: " + need
+		}
+	}
+	if nWorlds >= 2*hwKinds && (st.Dist["lazy:pending-child-before-unloaded-sibling"] == 0 || st.Dist["check:lazy-pending-handle"] == 0) {
+		st.HarnessErr = "required case never generated: a pending slab next to an unloaded sibling (directed / through a container handle)"
+	}
 	st.Distinct = len(distinct)
 	st.TraceLines = w.Lines
 	if len(st.Samples) == 0 {
